@@ -1018,6 +1018,15 @@ func genXver(r *rand.Rand, i int) Scenario {
 	seq := 0
 	b1 := genBatch(r, &cfg, &seq)
 	b2 := genBatch(r, &cfg, &seq)
+	if i%4 < 2 && len(b1) > 0 {
+		// a stored value that does not compress (pseudo-random bytes, 4-9 KiB): whatever a writer does with
+		// incompressible blocks, the other implementation must read it back
+		blob := make([]byte, 4100+r.Intn(5000))
+		r.Read(blob)
+		d := r.Intn(len(b1))
+		b1[d] = append(b1[d], FieldInst{Name: "blob", Len: 0, Stored: true, Value: B(blob), Terms: []TermOcc{}})
+		sc.Universe = append(sc.Universe, "blob")
+	}
 	sc.Batches = []Batch{b1, b2}
 	mode := pickMode(r)
 	d1, d2 := randDrops(r, len(b1)), randDrops(r, len(b2))
@@ -1727,6 +1736,29 @@ func genIterShare(r *rand.Rand, i int) Scenario {
 			sc.Ops = append(sc.Ops, Op{Op: "it_next_last"})
 		}
 	}
+	if i%4 == 3 {
+		// a reader that recycles its iterator from term to term meets an absent term first (it is handed the shared
+		// empty iterator) and passes that on as prealloc; other readers of absent terms must still see nothing
+		sc.Ops = append(sc.Ops,
+			Op{Op: "pl_open", Seg: seg, Field: "a", Term: B([]byte("nope")), Pl: 60}, Op{Op: "it_open", Pl: 60, It: 70, Freq: true, Norm: true, Locs: true}, Op{Op: "it_next", It: 70},
+			Op{Op: "pl_open", Seg: seg, Field: "a", Term: B([]byte("y")), Pl: 61}, Op{Op: "it_open", Pl: 61, It: 70, Prealloc: 70, Freq: true, Norm: true, Locs: true}, Op{Op: "it_next_last"},
+			Op{Op: "pl_open", Seg: seg, Field: []string{"a", "nosuchfield"}[(i/4)%2], Term: B([]byte("zzz")), Pl: 62}, Op{Op: "it_open", Pl: 62, It: 71, Freq: true, Norm: true, Locs: true},
+			Op{Op: "it_next", It: 71}, Op{Op: "it_next", It: 71}, Op{Op: "it_next", It: 70}, Op{Op: "it_next", It: 70}, Op{Op: "it_count", It: 71})
+	}
+	if i%4 == 2 && seg == 1 {
+		// one caller-owned bitmap installed with ReplaceActual in two iterators; one of them is drained and recycled
+		// for a list with exclusions - the bitmap stays the caller's, the other iterator goes on over it
+		sc.Ops = append(sc.Ops, Op{Op: "def_bm", Bm: 1, Docs: []int{0, 4}},
+			Op{Op: "pl_open", Seg: 1, Field: "a", Term: B([]byte("x")), Pl: 46}, Op{Op: "pl_open", Seg: 1, Field: "a", Term: B([]byte("y")), Pl: 47},
+			Op{Op: "it_open", Pl: 46, It: 56, Freq: true, Norm: true, Locs: true}, Op{Op: "it_replace", It: 56, Bm: 1},
+			Op{Op: "it_open", Pl: 47, It: 57, Freq: true, Norm: true, Locs: true}, Op{Op: "it_replace", It: 57, Bm: 1},
+			Op{Op: "it_next", It: 56}, Op{Op: "it_next", It: 56}, Op{Op: "it_next", It: 56}, Op{Op: "it_next", It: 57},
+			Op{Op: "pl_open", Seg: 1, Field: "a", Term: B([]byte("x")), Except: &DropSpec{Kind: "set", Docs: []int{1, 3}}, Pl: 48},
+			Op{Op: "it_open", Pl: 48, It: 56, Prealloc: 56, Freq: true, Norm: true, Locs: false},
+			Op{Op: "it_next", It: 56}, Op{Op: "it_next", It: 57}, Op{Op: "it_next", It: 57},
+			Op{Op: "it_open", Pl: 46, It: 58, Freq: true, Norm: false, Locs: false}, Op{Op: "it_replace", It: 58, Bm: 1},
+			Op{Op: "it_next", It: 58}, Op{Op: "it_next", It: 58}, Op{Op: "it_next", It: 58}, Op{Op: "digest"})
+	}
 	if i%3 == 0 {
 		// two readers, each: walk a term that has no location data at all with locations requested, hand the
 		// iterator back for a term that has locations, then both advance in turns
@@ -2152,6 +2184,11 @@ func genDvMergeOrder(r *rand.Rand, i int) Scenario {
 	sc.Ops = append(sc.Ops, Op{Op: "dv_open", Seg: 2, R: 2, Fields: []string{"g", "f"}})
 	for _, d := range []int{0, 211, 1024, len(large) - 1, 1055} {
 		sc.Ops = append(sc.Ops, Op{Op: "dv_visit", R: 2, N: d})
+	}
+	// two readers of the large input used in turns on different chunks (each keeps its own loaded chunk)
+	sc.Ops = append(sc.Ops, Op{Op: "dv_open", Seg: 2, R: 31, Fields: []string{"f", "g"}}, Op{Op: "dv_open", Seg: 2, R: 32, Fields: []string{"f", "g"}})
+	for _, v := range [][2]int{{31, 0}, {31, 211}, {32, 1024}, {31, 422}, {32, 1055}, {31, 0}, {32, len(large) - 1}, {31, 211}, {32, 1024}, {31, 633}} {
+		sc.Ops = append(sc.Ops, Op{Op: "dv_visit", R: v[0], N: v[1]})
 	}
 	// and a second merge of the same inputs
 	sc.Ops = append(sc.Ops, Op{Op: "merge", File: 2, In: order, Drops: dr, Mode: 0, Buf: 4096}, Op{Op: "load", File: 2, Seg: 20, Backing: "mem"},
